@@ -790,14 +790,31 @@ def quotient_from_elim(rng) -> Dict[str, Any]:
     if not any(v in t["c"] for t in top["g"] for v in t_out):
         top["g"].append(T({t_out[0]: 1.0}, 5.0))
     divisor = {"in": list(elim), "out": d_out, "a": a_terms, "g": g_terms}
+    addl: List[str] = []
+    if len(elim) >= 2 and rng.random() < 0.35:
+        addl = rng.sample(elim, rng.randint(1, len(elim) - 1))   # some shared inputs stay visible to the quotient
     return {"family": "from_elim:" + e["family"], "shape": "shared_inputs", "style": "elim", "top": top,
-            "divisor": divisor, "partner": None, "additional_inputs": [], "simplify": e["simplify"],
+            "divisor": divisor, "partner": None, "additional_inputs": addl, "simplify": e["simplify"],
             "order": e["order"]}
 
 
 def quotient_case(rng) -> Dict[str, Any]:
     """(dividend, divisor): dividend built as divisor || hidden partner, or unrelated."""
     style = pick_style(rng)
+    if rng.random() < 0.1:
+        # two inputs shared with the divisor, one of them hidden from the quotient; the dividend's assumptions reach
+        # the hidden one from an input of its own, the divisor's assumptions tie the hidden one to the visible one
+        sg = rng.choice([1.0, -1.0])
+        k = [float(rng.randint(0, 9)) for _ in range(5)]
+        top = {"in": ["s1", "s2", "j1"], "out": ["o1"],
+               "a": [T({"j1": sg, "s2": -sg}, k[0]), T({"s2": sg}, k[1])], "g": [T({"o1": 1.0, "j1": -1.0}, k[2])]}
+        if rng.random() < 0.3:
+            top["a"].append(T({"s1": rng.choice([1.0, -1.0])}, k[3] + 3))
+        divisor = {"in": ["s1", "s2"], "out": ["m1"], "a": [T({"s2": sg, "s1": -sg}, k[3])],
+                   "g": [T({"m1": 1.0, "s1": -1.0}, k[4])]}
+        addl = rng.choice([["s1"], ["s1"], ["s2"], []])
+        return {"family": "shared_chain", "shape": "shared_inputs", "style": "int", "top": top, "divisor": divisor,
+                "partner": None, "additional_inputs": addl, "simplify": rng.random() < 0.6, "order": rorder(rng)}
     fam = rng.choice(["hidden_partner", "hidden_partner", "unrelated", "top_assumes_more", "top_assumes_less"])
     # divisor C1: i1 -> m1 ; partner P: m1 -> o1 ; top: i1 -> o1
     shape = rng.choice(["first", "second", "parallel"])
